@@ -7,7 +7,13 @@ usage: campaign.py [id ...]     (default: all)
 """
 import json, os, subprocess, sys, time, glob
 
-SEEDED = "/verif/seeded"
+HERE = os.path.dirname(os.path.dirname(os.path.abspath(__file__)))
+SEEDED = HERE + "/seeded"
+REPO = os.environ.get("VP_RUN_REPO") or os.environ.get("VERIF_REPO") or "/repo"
+if os.environ.get("VP_RUN_REPO"):
+    # background snapshot run (vp run --with-repo): work on the snapshot of /repo, so that /repo stays free
+    os.environ["VERIF_REPO"] = REPO
+    subprocess.run(f"sed -i 's#path = \"/repo#path = \"{REPO}#' {HERE}/harness/*/Cargo.toml", shell=True)
 SUFFIX = ("-seed" + os.environ["VERIF_SEED"]) if os.environ.get("VERIF_SEED") not in (None, "1") else ""
 
 
@@ -20,7 +26,7 @@ def main():
     results = {}
     if os.path.exists(SEEDED + f"/RESULTS{SUFFIX}.json"):
         results = json.load(open(SEEDED + f"/RESULTS{SUFFIX}.json"))
-    if sh("git -C /repo diff --quiet").returncode != 0:
+    if sh(f"git -C {REPO} diff --quiet").returncode != 0:
         print("repo dirty, refusing")
         return 2
     for sid in ids:
@@ -31,18 +37,18 @@ def main():
             results[sid] = {"property": prop, "status": "obsolete: " + meta["obsolete"][:120], "caught": None}
             continue
         rev = "-R" if meta.get("apply_reversed") else ""
-        r = sh(f"git -C /repo apply {rev} {d}/patch.diff")
+        r = sh(f"git -C {REPO} apply {rev} {d}/patch.diff")
         if r.returncode != 0:
             results[sid] = {"property": prop, "status": "patch does not apply", "detail": r.stdout[-300:]}
             continue
         t = time.time()
         try:
-            c = sh(f"/verif/check {prop} quick 2>/dev/null", timeout=3000, env=dict(os.environ, VERIF_FAILFAST=os.environ.get("VERIF_FAILFAST", "1"), VERIF_EVIDENCE_DIR="/verif/work/campaign-evidence"))
+            c = sh(f"{HERE}/check {prop} quick 2>/dev/null", timeout=3000, env=dict(os.environ, VERIF_FAILFAST=os.environ.get("VERIF_FAILFAST", "1"), VERIF_EVIDENCE_DIR=HERE + "/work/campaign-evidence"))
             out, rc = c.stdout, c.returncode
         except subprocess.TimeoutExpired:
             out, rc = "", -1
         finally:
-            sh("git -C /repo checkout -- .")
+            sh(f"git -C {REPO} checkout -- .")
         viol = [l for l in out.splitlines() if l.startswith("VIOLATION")]
         rules = sorted(set(l.strip().split(" ")[0].replace("rule=", "") for l in out.splitlines() if l.strip().startswith("rule=")))
         first = next((l.strip() for l in out.splitlines() if l.strip().startswith("rule=")), "")
